@@ -6,7 +6,9 @@ import Model.EvaluatorTrace
 Driver for C01 (stateful, one session at a time; `init` starts a new evaluator).
 
 Configurations are `{"x":int,"tag":str,"fail":bool}`; the run-function of the harness returns
-`3*x + 1/2` (a float, exact) or the failure string `"F_" ++ tag` — `runF` below is the same function.
+`3*x + 1/2 + 16*w` (a float, exact; `w` = sum of the integers in the configuration's nested values, `nest` their
+canonical text) or the failure string `"F_" ++ tag` — `runF` below is the same function.  `{"op":"noop"}` = a
+caller-side action between calls (editing its own objects) that must not change anything.
 
 requests
   {"op":"init","hpo":bool,"pre":bool}            pre = use the pinned tree's close (replay of witnesses)
@@ -29,6 +31,9 @@ structure Cfg where
   x : Int
   tag : String
   fail : Bool
+  /-- canonical text of the nested (mutable) values of the configuration, and the sum of their integers -/
+  nest : String
+  w : Int
   deriving DecidableEq, Repr
 
 inductive OutV
@@ -36,7 +41,8 @@ inductive OutV
   | fstr (s : String)
   deriving DecidableEq, Repr
 
-def runF (c : Cfg) : OutV := if c.fail then .fstr ("F_" ++ c.tag) else .obj (3 * (c.x : Rat) + 1 / 2)
+def runF (c : Cfg) : OutV :=
+  if c.fail then .fstr ("F_" ++ c.tag) else .obj (3 * (c.x : Rat) + 1 / 2 + 16 * (c.w : Rat))
 
 def mkParams (hpo : Bool) : Params Cfg OutV :=
   { f := runF, hpo := hpo, cancelOut := .fstr "F_CANCELLED",
@@ -48,7 +54,8 @@ structure Sess where
   ev : Ev Cfg OutV
 
 def jCfg (j : Json) : Except String Cfg := do
-  return { x := ← jInt (← field j "x"), tag := ← jStr (← field j "tag"), fail := ← jBool (← field j "fail") }
+  return { x := ← jInt (← field j "x"), tag := ← jStr (← field j "tag"), fail := ← jBool (← field j "fail"),
+           nest := ← jStr (fieldD j "nest" (Json.str "{}")), w := ← jInt (fieldD j "w" (Json.num 0)) }
 
 def statusStr : Status → String
   | .ready => "READY" | .running => "RUNNING" | .done => "DONE" | .cancelled => "CANCELLED"
@@ -64,7 +71,8 @@ def ofOutV : Option OutV → Json
 
 def ofJob (j : JobRec Cfg OutV) : Json :=
   Json.mkObj [("id", Json.num (JsonNumber.fromNat j.id)), ("x", Json.num (JsonNumber.fromInt j.cfg.x)),
-    ("tag", j.cfg.tag), ("fail", j.cfg.fail), ("out", ofOutV j.out), ("status", statusStr j.status)]
+    ("tag", j.cfg.tag), ("fail", j.cfg.fail), ("nest", j.cfg.nest), ("w", Json.num (JsonNumber.fromInt j.cfg.w)),
+    ("out", ofOutV j.out), ("status", statusStr j.status)]
 
 def ofOut : Out Cfg OutV → Json
   | .unit => Json.mkObj [("kind", "unit")]
@@ -180,10 +188,11 @@ def handle (s : Option Sess) (j : Json) : Except String (Option Sess × Json) :=
   match s with
   | none => throw "no session: send init first"
   | some se =>
-    let o ← parseOp j
     let p := mkParams se.hpo
-    let envOk := opOk se.ev o
-    let (ev', out) := if se.pre then stepPre p se.ev o else step p se.ev o
+    let (envOk, ev', out) ← (if op == "noop" then pure (true, se.ev, (Out.unit : Out Cfg OutV)) else do
+      let o ← parseOp j
+      let r := if se.pre then stepPre p se.ev o else step p se.ev o
+      pure (opOk se.ev o, r.1, r.2))
     let rep := Json.mkObj [("ok", true), ("env_ok", envOk), ("out", ofOut out),
       ("num_submitted", Json.num (JsonNumber.fromNat (numSubmitted ev'))),
       ("num_gathered", Json.num (JsonNumber.fromNat (numGathered ev'))),
